@@ -480,3 +480,38 @@ Proof.
   cbn [repeat fold_left]. change (striple (Some 2) (striple (Some 2) (false, 0, SCopy 5) 0) 0) with (false, 2, SCopy 3).
   rewrite Hfix. cbn. lia.
 Qed.
+
+(* ---------------- teardown order: the map forgets the tunnel whatever the routing store does ---------------- *)
+Lemma td_forgotten_stays o : forall h s, td_in_map s = false -> td_in_map (fold_left (td_step o) h s) = false.
+Proof.
+  induction h as [|e r IH]; intros s Hs; [exact Hs|]. cbn [fold_left]. apply IH.
+  destruct e; cbn; [|exact Hs]. destruct (td_at s); cbn; auto. destruct (td_answered s); cbn; auto.
+Qed.
+
+(* as soon as the lifecycle goroutine gets ONE step after Start returned, the tunnel is out of the map — for every history
+   of store answers (early, late, never) around it *)
+Theorem map_first_forgets_at_once : forall h1 h2,
+  Forall (fun e => e = TdStoreAnswers) h1 ->
+  td_in_map (td_run MapFirst (h1 ++ TdStep :: h2)) = false.
+Proof.
+  intros h1 h2 Hh. unfold td_run. rewrite fold_left_app. cbn [fold_left]. apply td_forgotten_stays.
+  assert (Hat : forall h s, Forall (fun e => e = TdStoreAnswers) h -> td_at (fold_left (td_step MapFirst) h s) = td_at s).
+  { induction h as [|e r IH]; intros s Hf; [reflexivity|]. inversion Hf as [|? ? He Hr]; subst. cbn [fold_left]. rewrite IH by exact Hr. reflexivity. }
+  unfold td_step at 1. rewrite (Hat h1 _ Hh). reflexivity.
+Qed.
+
+(* refuted: routing record first — with a silent store the tunnel stays in the map however many steps the goroutine gets *)
+Theorem routing_first_never_forgets_refuted : forall n,
+  td_in_map (td_run RoutingFirst (repeat TdStep n)) = true.
+Proof.
+  intros n. unfold td_run.
+  assert (H : forall n s, td_at s = TdRouting -> td_answered s = false -> td_in_map s = true ->
+            td_in_map (fold_left (td_step RoutingFirst) (repeat TdStep n) s) = true).
+  { clear. induction n as [|n IH]; intros s H1 H2 H3; [exact H3|]. cbn [repeat fold_left].
+    assert (E : td_step RoutingFirst s TdStep = s) by (unfold td_step; rewrite H1, H2; reflexivity). rewrite E. apply IH; assumption. }
+  apply H; reflexivity.
+Qed.
+
+Example teardown_nonvacuous :
+  td_run MapFirst [TdStep; TdStep; TdStoreAnswers; TdStep] = {| td_at := TdDone; td_in_map := false; td_answered := true |}.
+Proof. reflexivity. Qed.
